@@ -62,7 +62,7 @@ Proof.
   rewrite Ebs in *. fold sfx in Hvalid. fold sfx.
   assert (length sfx = (Z.to_nat mlen - 34 - type_size ty)%nat) as Ls by (unfold sfx; rewrite skipn_length; lia).
   assert (0 <= mlen < 65536) as Rm.
-  { rewrite Emlen. assert (bytes_ok [b2; b3]) as K by (split_bytes Hb34; bytes_solve).
+  { rewrite Emlen. assert (bytes_ok [b2; b3]) as K by (pose proof Hb34 as Hq; unfold l34 in Hq; split_bytes Hq; bytes_solve).
     pose proof (unbe_range _ K) as R. cbn [length] in R. change (256 ^ Z.of_nat 2) with 65536 in R. exact R. }
   rewrite <- Emlen in *.
   split; [|split; [exact Hok|split; [exact Bok|exact Hvalid]]].
@@ -81,7 +81,7 @@ Proof.
   { rewrite firstn_app, L34. rewrite (firstn_all2 l34) by (rewrite L34; lia). fold content. rewrite Ecs. reflexivity. }
   rewrite Ef. unfold normalise.
   assert (Z.land (byte 0 (l34 ++ d ++ sfx)) 15 = ty) as Ety' by (rewrite Ety; reflexivity).
-  rewrite Ety'. rewrite mapi_from_app, L34. rewrite (norm_header ty) by exact Hin.
+  rewrite Ety'. rewrite mapi_from_app, L34. unfold l34. rewrite (norm_header ty) by exact Hin.
   rewrite mapi_from_app. cbn [plus]. f_equal. f_equal.
   symmetry. apply mapi_from_id. intros j x Hj. apply norm_tail; [exact Hin|lia].
 Qed.
@@ -102,11 +102,12 @@ Proof.
   intros buf m n Hb H Hn.
   assert (34 <= length buf)%nat as L.
   { unfold msg_deserialize in H. destruct (length buf <? 34)%nat eqn:E; [discriminate|]. apply Nat.ltb_ge in E. exact E. }
-  rewrite <- (firstn_skipn 34 buf) in *.
   assert (length (firstn 34 buf) = 34%nat) as L34 by (rewrite firstn_length; lia).
   destruct (explicit34 _ L34) as (b0 & b1 & b2 & b3 & b4 & b5 & b6 & b7 & b8 & b9 & b10 & b11 & b12 & b13 & b14 & b15 & b16
     & b17 & b18 & b19 & b20 & b21 & b22 & b23 & b24 & b25 & b26 & b27 & b28 & b29 & b30 & b31 & b32 & b33 & E).
-  rewrite E in *. eapply de_ser_split; eauto.
+  pose proof (firstn_skipn 34 buf) as Eb. rewrite E in Eb.
+  remember (skipn 34 buf) as rest eqn:Er. clear Er E L34 L. subst buf.
+  eapply de_ser_split; eauto.
 Qed.
 
 (* the mask is the identity on inputs whose reserved positions are zero and whose enumeration
